@@ -30,7 +30,7 @@ func init() {
 			"CalBlsGpSign -> computeRoundRandomSeed (plus the TryProposeBlock/StartVerification it triggers), or the exported mc.HandleVRFShare / mc.AddVRFShare directly (plan says which). " +
 			"Bypassed: HTTP decoding and node.ValidateSenderSignature (the sim transport authenticates the sender and hands the handler the sender node), " +
 			"the RoundWorker timeout loop and restartRound's network part (BumpLFBTicket, fetching the heaviest notarized block): a restart is the three calls restartRound itself makes at its end, " +
-			"miner.Round.Restart + IncrementTimeoutCount + RedoVrfShare. The previous round's seed is installed with SetRandomSeed. Besides shares, byzantine peers also send notarized-block messages " +
+			"miner.Round.Restart + IncrementTimeoutCount + RedoVrfShare. The previous round's seed is installed with SetRandomSeed. In 30% of the plans the NUT's previous round gets its seed late (shares arriving before are cached by the node and verified by verifyCachedVRFShares afterwards). Besides shares, byzantine peers also send notarized-block messages " +
 			"without a valid notarization for the round under test (miner.NotarizedBlockHandler -> handleNotarizedBlockMessage), the other received message that can write the round's seed. Oracle recomputes the seed from another share subset with the shipped recovery code on a peer's own DKG instance",
 		Technique: "deterministic simulation: one real miner + sim peers with real DKG shares, byzantine share injection, round restarts, synctest bubble",
 		DesignRef: "6/C33, 3.2", Regime: "single-threaded event loop inside a synctest bubble; synctest.Wait() after every injected message",
@@ -75,6 +75,9 @@ func genC33(seed uint64, tier string) *sim.Plan {
 	}
 	p := &sim.Plan{Cfg: map[string]int64{"miners": int64(n), "t": int64(t), "sharders": int64(sw.Range(1, 3)), "round": rn, "prev": prev}}
 	byz := sw.Pick([]int{2, 3, 3}) // 0: honest only, 1: light, 2: heavy
+	if sw.Bool(0.3) {
+		p.Cfg["late_prev"] = 1
+	}
 	epochs := r.Range(1, 4)
 	if tier == "thorough" {
 		epochs = r.Range(1, 6)
@@ -123,6 +126,10 @@ func genC33(seed uint64, tier string) *sim.Plan {
 			nb := sim.Step{Op: "nblock", A: r.Intn(n - 1), I: []int64{int64(r.Intn(1000)), int64(r.Intn(2))}}
 			p.Steps = append(p.Steps[:at], append([]sim.Step{nb}, p.Steps[at:]...)...)
 		}
+		if e == 0 && p.Cfg["late_prev"] == 1 {
+			at := r.Intn(len(p.Steps) + 1)
+			p.Steps = append(p.Steps[:at], append([]sim.Step{{Op: "prevseed"}}, p.Steps[at:]...)...)
+		}
 		p.Steps = append(p.Steps, sim.Step{Op: "restart", I: []int64{int64(r.Intn(2))}})
 	}
 	return p
@@ -143,11 +150,17 @@ type c33 struct {
 	// round seeds that arrived inside (unverifiable) notarized-block messages
 	injected         map[int64]bool
 	reportedInjected bool
+	// messages honest parties sign, by timeout count: GetBlsMessageForRound evaluated while the previous round's seed is known
+	msgs        map[int]string
+	cachedPhase bool // shares were delivered while the previous round had no seed
 }
 
 // blsMsg is the message an honest party at timeout count tc signs for the round:
 // the shipped GetBlsMessageForRound evaluated on the party's own round object.
 func (c *c33) blsMsg(tc int) string {
+	if m, ok := c.msgs[tc]; ok {
+		return m
+	}
 	pr := round.NewRound(c.rn)
 	if tc > 0 {
 		pr.SetTimeoutCount(tc)
@@ -156,6 +169,7 @@ func (c *c33) blsMsg(tc int) string {
 	if err != nil {
 		panic(err)
 	}
+	c.msgs[tc] = m
 	return m
 }
 
@@ -198,7 +212,7 @@ func runC33(env *sim.Env, p *sim.Plan) *sim.Result {
 	w := NewWorld(WorldCfg{Seed: p.Seed, Miners: n, Sharders: int(p.CfgInt("sharders", 2)), T: t, Threshold: 66})
 	defer w.Close()
 	mc := w.MC
-	c := &c33{w: w, tr: tr, rn: p.CfgInt("round", 5), prev: p.CfgInt("prev", 12345), delivered: map[string]string{}, injected: map[int64]bool{}}
+	c := &c33{w: w, tr: tr, rn: p.CfgInt("round", 5), prev: p.CfgInt("prev", 12345), delivered: map[string]string{}, injected: map[int64]bool{}, msgs: map[int]string{}}
 	if c.prev == 0 {
 		c.prev = 7
 	}
@@ -212,6 +226,17 @@ func runC33(env *sim.Env, p *sim.Plan) *sim.Result {
 	mc.AddRound(pr)
 	if !mc.SetRandomSeed(pr, c.prev) {
 		panic("cannot set previous seed")
+	}
+	if p.CfgInt("late_prev", 0) == 1 {
+		// the NUT lags: its previous round has no seed yet when the first shares arrive (they are cached);
+		// honest peers know it already, so their messages are computed first
+		for tc := 0; tc <= 24; tc++ {
+			c.blsMsg(tc)
+		}
+		mc.DeleteRound(w.Ctx, pr)
+		pr = mc.CreateRound(round.NewRound(c.rn - 1))
+		mc.AddRound(pr)
+		tr.Fault("previous_round_seed_late")
 	}
 	c.mr = mc.AddRound(mc.CreateRound(round.NewRound(c.rn))).(*miner.Round)
 	mc.SetCurrentRound(c.rn)
@@ -298,6 +323,10 @@ func runC33(env *sim.Env, p *sim.Plan) *sim.Result {
 				tr.Probe("compared_with_disjoint_member")
 			}
 		}
+		if c.cachedPhase && valid > 0 {
+			c.cachedPhase = false
+			tr.Probe("cached_shares_verified_after_previous_seed_arrived")
+		}
 		if !c.mr.HasRandomSeed() && valid >= t {
 			tr.Probe("threshold_verified_shares_held_but_no_seed") // liveness only, outside the statement (see NOTES.md)
 		}
@@ -315,6 +344,13 @@ func runC33(env *sim.Env, p *sim.Plan) *sim.Result {
 			tr.SimTime += d.Seconds()
 			tr.Event("wait %v", d)
 			tr.Outcome("wait")
+		case "prevseed":
+			ok := false
+			if ppr := mc.GetMinerRound(c.rn - 1); ppr != nil && !ppr.HasRandomSeed() {
+				ok = mc.SetRandomSeed(ppr, c.prev)
+			}
+			tr.Event("prevseed set=%v", ok)
+			tr.Outcome("prevseed")
 		case "nblock":
 			// a notarized-block message for the round under test whose block names an arbitrary round seed and carries
 			// no (or forged) tickets; sender: any miner
@@ -427,11 +463,11 @@ func runC33(env *sim.Env, p *sim.Plan) *sim.Result {
 				vr.Share = c.honestShare(other, tc+off)
 				tr.Fault("share_of_other_party")
 			case "wrongprev":
-				m := fmt.Sprintf("%v%v%v", c.rn, tc+off, strconv.FormatInt(c.prevSeed()+1+st.Int(2, 0), 16))
+				m := fmt.Sprintf("%v%v%v", c.rn, tc+off, strconv.FormatInt(c.prev+1+st.Int(2, 0), 16))
 				vr.Share = sender.DKG.Sign(m).GetHexString()
 				tr.Fault("share_wrong_previous_seed")
 			case "wronground":
-				m := fmt.Sprintf("%v%v%v", c.rn+1, tc+off, strconv.FormatInt(c.prevSeed(), 16))
+				m := fmt.Sprintf("%v%v%v", c.rn+1, tc+off, strconv.FormatInt(c.prev, 16))
 				vr.Share = sender.DKG.Sign(m).GetHexString()
 				tr.Fault("share_wrong_round")
 			case "garbage":
@@ -469,6 +505,10 @@ func runC33(env *sim.Env, p *sim.Plan) *sim.Result {
 				c.delivered[key] = kind
 			}
 			via := st.Int(3, 0)
+			if c.prevSeed() == 0 {
+				c.cachedPhase = true
+				tr.Fault("share_before_previous_seed")
+			}
 			c.deliver(sender.Node, vr, via)
 			tr.Event("share from=%s/%d kind=%s label_tc=%d via=%d", sender.Kind, sender.Idx, kind, vr.RoundTimeoutCount, via)
 			tr.Outcome("share/" + kind)
